@@ -38,6 +38,27 @@ class Rec:
         return f"r{n}"
 
 
+class Ext:
+    """an object outside the machine; its bound methods `EXT.cb<n>` are given as callbacks. It is armed only after
+    the class statement has run: the callbacks a machine calls must be methods of *this* object, not of a copy
+    taken while the class was being put together."""
+    armed = False
+
+
+def _ext_method(n):
+    def f(self, model):
+        if not self.armed:
+            raise AssertionError(f"cb{n} was called on a stale copy of the object it is bound to")
+        return model.hit(n)
+    f.__name__ = f.__qualname__ = f"cb{n}"
+    f.__cbid__ = n
+    return f
+
+
+for _n in range(1, 120):
+    setattr(Ext, f"cb{_n}", _ext_method(_n))
+
+
 def build(src, clsname="M"):
     """exec the source text; returns (class, None) or (None, 'ExceptionType: msg')"""
     from statemachine import State, StateMachine
@@ -51,12 +72,14 @@ def build(src, clsname="M"):
                 list(base(model=Rec(), start_value=st.value).allowed_events)
             except Exception:  # noqa: BLE001  (a base that cannot be instantiated on its own: nothing to use)
                 pass
+    ext = Ext()
     ns = dict(StateMachine=StateMachine, State=State, States=States, Event=Event, Enum=Enum, IntEnum=IntEnum, cb=cb,
-              use_first=use_first)
+              use_first=use_first, EXT=ext)
     try:
         with warnings.catch_warnings():
             warnings.simplefilter("ignore")
             exec(compile(src, "<rendering>", "exec"), ns)
+        ext.armed = True
         return ns[clsname], None
     except Exception as ex:  # noqa: BLE001
         return None, f"{type(ex).__name__}: {ex}"
